@@ -623,6 +623,8 @@ type Interp struct {
 	// assigns that variable (Go uses the value read first; the back-ends copy variable references into the emitted
 	// statement, so the script sees the new value - a recorded defect class of its own).
 	LazyRead bool
+	// BreakInSwitch is set when a break statement left a switch clause (Go: the switch ends, an enclosing loop goes on)
+	BreakInSwitch bool
 	curReads map[*RV]bool   // scalar variables read so far by the statement being evaluated
 	pending  []map[*RV]bool // per function call in progress: what its calling statement had read before the call
 	ctl     refCtl
@@ -875,7 +877,9 @@ func (in *Interp) stmt(s Stmt) {
 			if in.C.Branch(c) {
 				in.block(x.Cases[i].Body, true)
 				if in.ctl == rcBreak {
-					exclude("break inside a switch")
+					// Go: a break inside a switch clause leaves the switch (not an enclosing loop)
+					in.ctl = rcNone
+					in.BreakInSwitch = true
 				}
 				return
 			}
@@ -883,7 +887,8 @@ func (in *Interp) stmt(s Stmt) {
 		if x.HasDef {
 			in.block(x.Default, true)
 			if in.ctl == rcBreak {
-				exclude("break inside a switch")
+				in.ctl = rcNone
+				in.BreakInSwitch = true
 			}
 		}
 	case For:
